@@ -2,5 +2,5 @@
 # usage: check.sh <property id> <quick|thorough>
 export GOFLAGS=-mod=mod GOPROXY=off GOSUMDB=off GOTOOLCHAIN=local
 mkdir -p /verif/bin /verif/.work
-( cd /verif/mc && go build -o /verif/bin/pikemc ./cmd/pikemc ) || { echo "HARNESS ERROR: driver does not build"; exit 2; }
+( cd /verif/mc && go build -o /verif/bin/pikemc.$$ ./cmd/pikemc && mv -f /verif/bin/pikemc.$$ /verif/bin/pikemc ) || { rm -f /verif/bin/pikemc.$$; echo "HARNESS ERROR: driver does not build"; exit 2; }
 exec /verif/bin/pikemc check "$1" --tier "${2:-quick}"
